@@ -208,6 +208,19 @@ def stopHooks : Nat → List HB → List Ev
   | _, [] => []
   | i, _ :: rest => Ev.stopIn i false false :: Ev.stopOut i :: stopHooks (i + 1) rest
 
+/-- `executeStopHooks` statement by statement, with the hook behaviours: `perHook` = every hook runs inside its own
+    `func() { defer recover … hook() }()` (what the source has: Tie `hook_loops_obligation`, `perHookRecover` of
+    `executeStopHooks`); without it a panicking hook leaves the loop — the remaining hooks never run and the panic goes on
+    into `runServer` (the second component). `stopHooks` above is this function with `perHook := true`
+    (`Props/C09Whole.lean`, `stopHooks_is_exec_with_recover`). -/
+def stopHooksExec (perHook : Bool) : Nat → List HB → List Ev × Bool
+  | _, [] => ([], false)
+  | i, b :: rest =>
+    if b == .panic && !perHook then ([Ev.stopIn i false false, Ev.stopOut i], true)
+    else
+      let r := stopHooksExec perHook (i + 1) rest
+      (Ev.stopIn i false false :: Ev.stopOut i :: r.1, r.2)
+
 /-! ### results of the requests -/
 
 def reqResOf (sent : Bool) (shutRan : Nat → Bool) (drained : Bool) : Rel → ReqRes
